@@ -25,22 +25,30 @@ func modelOutcome(ans string) string {
 }
 
 type tcase struct {
-	p    *prog
-	src  string
-	real outcome
+	p      *prog
+	src    string
+	real   outcome
+	stream string
+	noGc   bool // gc is run on it only when model and VM disagree (exhaustive stream: a sample goes to gc)
 }
 
 func run(c *hx.Ctx) error {
 	res := c.Res
-	res.Rule = "random function tables (2–7 functions, acyclic references, ≤ 6 instructions each) over call/defer/defer recover()/return/panic/recover/re-panic/print (+ Stop/Fatal in a third of them), each function written as top-level function, function literal or closure variable, panics as builtin, native function or native method; non-trivial: at least one panic is raised at run time; distinct by abstract program"
+	res.Rule = "three streams. uniform: random function tables (2–7 functions, acyclic references, ≤ 6 instructions each) over call/defer/defer recover()/return/panic/recover/re-panic/print (+ Stop/Fatal in a third); grammar: nested functions with 0–3 deferred calls each whose deferred functions recover, re-panic, panic again, defer and call further functions (depth ≤ 3); exhaustive: every program main(≤3 instr)/f1(≤2)/f2(≤2) over defer/call/panic/recover(/re-panic in f2), all run on the VM and the Lean machines, a seed-dependent sample of them and every disagreement also by gc. Functions written as top-level function, literal or closure variable, panics as builtin, native function or native method; non-trivial: a panic is raised at run time; distinct by abstract program"
 	if c.Replay != "" {
 		return replay(c)
 	}
-	n := c.N(450, 6000)
 	var cases []*tcase
-	for i := 0; i < n; i++ {
-		p := genProg(c.R, i%3 == 2)
-		cases = append(cases, &tcase{p: p})
+	for i := 0; i < c.N(240, 3000); i++ {
+		cases = append(cases, &tcase{p: genProg(c.R, i%3 == 2), stream: "uniform"})
+	}
+	for i := 0; i < c.N(600, 6000); i++ {
+		cases = append(cases, &tcase{p: genGrammar(c.R, i%5 == 4), stream: "grammar"})
+	}
+	every := c.N(64, 6)
+	off := int(c.Seed % uint64(every))
+	for i, p := range exhaustivePrograms() {
+		cases = append(cases, &tcase{p: p, stream: "exhaustive", noGc: i%every != off})
 	}
 	return checkCases(c, cases, true)
 }
@@ -72,6 +80,9 @@ func checkCases(c *hx.Ctx, cases []*tcase, shrink bool) error {
 	var gcIdx []int
 	var gcProgs []*prog
 	for i, t := range cases {
+		if t.noGc && (frames == nil || modelOutcome(frames[i]) == noMarker(t.real.String())) {
+			continue
+		}
 		if !t.p.usesStopFatal() {
 			gcIdx = append(gcIdx, i)
 			gcProgs = append(gcProgs, t.p)
@@ -98,6 +109,7 @@ func checkCases(c *hx.Ctx, cases []*tcase, shrink bool) error {
 		nontrivial := strings.Contains(real, "res=panic") || strings.Contains(t.real.Events, "r") && strings.Contains(strings.ReplaceAll(t.real.Events, "rn", ""), "r")
 		res.Count(key, nontrivial)
 		res.Hist("outcome-" + strings.SplitN(t.real.Res, ":", 2)[0])
+		res.Hist("stream-" + t.stream)
 		res.Hist(fmt.Sprintf("panic-sites-%d", min(t.p.count(opPanic), 6)))
 		if i%97 == 0 && nontrivial {
 			res.Sample(map[string]string{"program": key, "scriggo": real})
